@@ -2,6 +2,7 @@ package wasp
 
 import (
 	"github.com/vx-labs/mqtt-protocol/packet"
+	"github.com/vx-labs/wasp/v4/wasp/sessions"
 	rt "github.com/vx-labs/wasp/v4/zzsymxrt"
 )
 
@@ -50,7 +51,11 @@ func symxC20Registry() {
 	b := symxNewBroker(1, 1)
 	s1, _ := b.session("pre", "c", "m", 30)
 	s.Create("a", s1)
-	switch rt.Int("pair", 0, 2) {
+	switch rt.Int("pair", 0, 3) {
+	case 3:
+		var got *sessions.Session
+		symxPar(func() { s.Create("x", s1) }, func() { got = s.Get("a") })
+		rt.Assert(got == s1 && s.Get("x") != nil, "C20.registry.lookup_beside_create")
 	case 0:
 		symxPar(func() { s.Create("x", s1) }, func() { s.Create("y", s1) })
 		rt.Assert(s.Get("x") != nil && s.Get("y") != nil && s.Get("a") != nil, "C20.registry.both_creates_take_effect")
